@@ -19,6 +19,10 @@ SETS = [
     ["sr-Latn", "sr-Cyrl", "sr"], ["de", "de-DE", "de-AT", "de-CH"], ["ja", "ko", "ru", "pl"], ["pt-BR", "pt", "es-419", "es"], ["en-US", "en"],
     ["he-IL", "ar-EG", "en-GB"], ["it"], ["de-DE-1996", "de"], ["nl", "nl-BE", "af"], ["yi", "ps", "sd", "ug", "dv", "en"], ["uz-Arab", "uz-Cyrl", "uz-Latn", "uz"],
 ]
+# one language in scripts of different direction (what CLDR assigns depends on the whole identifier, not the language)
+MIXED = [["az", "az-Arab", "en"], ["pa", "pa-Arab", "pa-Guru"], ["ks-Deva", "ks", "ur"], ["sd", "sd-Deva", "sd-Arab", "hi"], ["ms-Arab", "ms", "id"],
+         ["tg", "tg-Arab", "fa-AF"], ["ku", "ku-Arab", "ckb"], ["ha-Arab", "ha", "ha-NE"], ["he-Latn", "he", "yi-Latn"], ["en-Arab", "en", "ar-Latn", "ar"]]
+SETS = SETS + MIXED
 RTL = {"ar", "he", "fa", "ur", "yi", "ps", "sd", "ug", "dv"}
 LTR = {"en", "fr", "ja", "ru", "zh", "de", "it", "pt", "es", "pl", "ko", "nl", "af", "sr"}
 
@@ -98,7 +102,7 @@ def run(tier, seed, replay=None):
     ncrates = 1 if tier == "quick" else 6
     crates = []
     for ci in range(ncrates):
-        sets = [list(s) for s in (SETS if tier == "thorough" else rng.sample(SETS, 8))]
+        sets = [list(s) for s in (SETS if tier == "thorough" else rng.sample(SETS[:-len(MIXED)], 6) + rng.sample(MIXED, 5))]
         for s in sets:
             rng.shuffle(s)
         main_set = sets[0]
